@@ -124,10 +124,36 @@ def clone_of_arg0(f, R, rendered):
     return rendered
 
 
+def final_state(acts, size):
+    """content of the container after the action list, starting from `size` old elements: list of tokens, or None when an
+    action is not one the rule can replay"""
+    st = ['old%d' % i for i in range(size)]
+    for a in acts:
+        if a[0] == 'append':
+            st.append(a[1])
+        elif a[0] == 'resize' and isinstance(a[1], int):
+            if a[1] > 10000:
+                return None
+            st = st[:a[1]] + ['empty'] * max(0, a[1] - len(st))
+        elif a[0] == 'store':
+            i = len(st) - 1 if a[1] == 'back' else a[1]
+            if not isinstance(i, int):
+                return None
+            if i < 0 or i >= len(st):
+                return ['<store at position %d of a container of %d elements>' % (i, len(st))]      # replayable, and wrong
+            st[i] = a[2]
+        elif a[0] == 'other' and str(a[1]).endswith('.reserve'):
+            continue            # capacity only
+        else:
+            return None
+    return st
+
+
 def check_setter(prog, res, f, cont, el):
     inst = f.sig.split('(')[0].split('::')[-2] + '::' + f.name
     rows = 0
     bad = []
+    unread = []
     # a file-local helper that resizes / hands out the slot: its actions are not tabulated by this rule
     Rq = Renderer(f)
     for c in f.calls():
@@ -159,10 +185,17 @@ def check_setter(prog, res, f, cont, el):
                 want = [[('store', idx, 'arg0')]]
                 why = 'replace element idx only'
             if acts not in want:
-                bad.append('idx=%s size=%d: does %s; documented: %s (%s)' % ('SIZE_MAX' if idx == SIZE_MAX else idx, size, acts, why, want[0]))
+                # another sequence of container operations with the same outcome?  compare the final content
+                got_state, want_state = final_state(acts, size), final_state(want[0], size)
+                if got_state is None:
+                    unread.append('idx=%s size=%d: does %s' % ('SIZE_MAX' if idx == SIZE_MAX else idx, size, acts))
+                elif got_state != want_state:
+                    bad.append('idx=%s size=%d: does %s; documented: %s (%s)' % ('SIZE_MAX' if idx == SIZE_MAX else idx, size, acts, why, want[0]))
     if bad:
         res.viol('three-way', inst, f.loc(), '; '.join(bad[:3]) + (' ... (%d rows differ)' % len(bad) if len(bad) > 3 else ''), function=f.sig, expr='table',
-                 facts={'rows': rows, 'differing': bad})
+                 facts={'rows': rows, 'differing': bad}, sure=True)
+    elif unread:
+        res.undecided('three-way', inst, f.loc(), 'the setter uses container operations whose outcome the rule does not tabulate (%s) [shape not read by the rule]' % unread[0], function=f.sig, expr='table')
     else:
         res.ok('three-way', inst, f.loc(), 'matches the documented append / replace / extend table on %d (idx,size) rows' % rows, function=f.sig, expr='table')
     # effect set confined to the own container
